@@ -23,7 +23,9 @@ import CrabModel.Dom.WIntDomain
   Meaning of a linear constraint (`assume`, `entails`, exported constraints): the one the class
   announces — "cst is always signed", "we interpret wrapint as signed mathematical integers":
   every variable is read as the signed number of its bit-vector and the expression is evaluated
-  over the mathematical integers.
+  over the mathematical integers.  Because the class could also be read as evaluating the expression
+  with wrap-around, `assume` and `entails` are judged only on witnesses for which both readings agree
+  (`cstUnambiguous`: no evaluation order of the expression can overflow at the width of its variables).
 
   After an UNSOUND step the violating witnesses are dropped and the comparison with the model goes
   on to the end of the history (the verdict of the line is then UNSOUND with the first failure).
@@ -175,6 +177,15 @@ def cstSat (ws : Array Nat) (c : Driver.Cst) (σ : WState) : Bool :=
   match c.k with
   | .le => decide (v ≤ 0) | .lt => decide (v < 0) | .eq => decide (v = 0) | .ne => decide (v ≠ 0)
 
+/-- the expression of the constraint can be evaluated at the width of its variables without overflow in ANY order:
+    `|c| + Σ |k·v| < 2^(w-1)`.  Then the mathematical and the wrap-around reading of the constraint coincide, so a
+    witness that satisfies it is a state of the collecting semantics under either reading (crab does not say which
+    one `assume` means for this domain; only such witnesses are used to judge `assume` and `entails`) -/
+def cstUnambiguous (ws : Array Nat) (c : Driver.Cst) (σ : WState) : Bool :=
+  let w := (c.e.ts.map (fun (kv : Int × Nat) => ws.getD kv.2 0)).foldl max 0
+  let tot : Nat := c.e.ts.foldl (fun a (k, v) => a + (k * sv (ws.getD v 0) (σ.getD v 0)).natAbs) c.e.c.natAbs
+  w ≥ 1 && tot < 2 ^ (w - 1)
+
 /-- modular value of a linear expression at width `w` (the reading of the variables is immaterial) -/
 def linMod (w : Nat) (l : Driver.Lin) (σ : WState) : Nat :=
   red w (l.ts.foldl (fun a (k, v) => a + k * (σ.getD v 0 : Int)) l.c)
@@ -204,7 +215,7 @@ def concStep (ws : Array Nat) (cw : Array (Array Nat)) (st : HState) (o : Sexp) 
     pure (st.g, capW (interleaveW (W d) ((W d).map (fun σ => σ.setIfInBounds x (linMod (wdt x) e σ)))))
   | .list (.atom "assume" :: d :: cs) => do
     let cs ← cs.mapM parseCst
-    pure (st.g, (W d).filter (fun σ => cs.all (fun c => cstSat ws c σ)))
+    pure (st.g, (W d).filter (fun σ => cs.all (fun c => cstSat ws c σ && cstUnambiguous ws c σ)))
   | .list [.atom "forget1", d, x] => do pure (havoc cw st.g (← varIdx x) (W d))
   | .list (.atom "forget" :: d :: xs) => do
     let xs ← vars? xs
@@ -328,7 +339,7 @@ def handleHist (ws : Array Nat) (ops res : List Sexp) : Verdict :=
         if toString p.q == "1" then
           match parseCst c with
           | some c =>
-            match wd1.find? (fun σ => !cstSat ws c σ) with
+            match wd1.find? (fun σ => !cstSat ws c σ && cstUnambiguous ws c σ) with
             | some σ => uns := note uns s!"[C04] {ctx}: entails answered yes on {showEnv pre} but witness {showState ws σ} violates the constraint (signed reading)"
             | none => pure ()
           | none => pure ()
